@@ -336,9 +336,9 @@ PROPS = {
     'C15': dict(
         # OLP.Props.C15Arith (T2 tie: threshold_is_source_finalized / _failed over the generated OLP.Gen.Arith)
         # lives in /verif; a slice workspace whose extractor does not emit Gen/Arith runs without it
-        lean_modules=['OLP.Props.C15', 'OLP.Props.C15Arith'],
+        lean_modules=['OLP.Props.C15', 'OLP.Props.C15Arith', 'OLP.Props.C15Funcs'],
         namespaces=['OLP.Props.C15'],
-        required_theorems=['vote_only_own_slot_once', 'nonwitness_vote_does_not_count', 'wrong_index_does_not_count', 'second_vote_refused',
+        required_theorems=['getVotes_is_count', 'finalized_is_source', 'failed_is_source', 'source_not_both', 'vote_only_own_slot_once', 'nonwitness_vote_does_not_count', 'wrong_index_does_not_count', 'second_vote_refused',
                            'yes_count_monotone', 'no_count_monotone', 'threshold_is_more_than_two_thirds', 'never_both_decided',
                            'wf_reachable', 'endBlock_never_panics', 'block_end_is_a_function_of_chain_state', 'block_end_moves_no_value',
                            'block_end_archives_every_decided_tracker', 'transition_depends_on_record_only', 'cleanup_moves_released', 'cleanup_moves_failed',
